@@ -27,6 +27,8 @@ import Bermuda.Lemmas.ExtendExamples
 import Bermuda.Lemmas.ExtendSpecTriUnit
 import Bermuda.Lemmas.ExtendFillTotal
 import Bermuda.Lemmas.ExtendTotalInc
+import Bermuda.Lemmas.ExtensionB7
+import Bermuda.Lemmas.ExtensionB7Tri
 import Bermuda.Spec.C15
 namespace Bermuda.Properties.C15
 open Bermuda Bermuda.Extend
@@ -1259,5 +1261,88 @@ theorem exU_rightTri_ok : ∃ out, makeRightTriangleU Properties.C04.exU none (s
   · simp only [Properties.C04.exU, List.mem_cons, List.not_mem_nil, or_false] at he ho
     rcases he with rfl | rfl | rfl | rfl | rfl | rfl <;>
       rcases ho with rfl | rfl | rfl | rfl | rfl | rfl <;> revert hgt <;> decide +kernel
+
+/-! ### `include_historic = True` on a complete incremental triangle -/
+
+/-- **rightDiag_incremental_historic_raises**: on a complete `IncrementalCell` triangle (hypotheses of
+`rightDiag_total_incremental`: canonical metadata, distinct requested dates, no `CumulativeCell(...)` call raises),
+`make_right_diagonal(..., include_historic=True)` RAISES `ValueError` as soon as one requested date `d` is not before the
+period start of an observed cell `x` (so a cell is created on `x`'s row at `d`) and not after `x`'s evaluation date —
+i.e. `d` is at or before the observed right edge of that period. Mechanism (what the library does, confirmed on /repo:
+`ValueError: evaluation_date must be > prev_evaluation_date`): `to_cumulative`, the comprehension, `Triangle(...)` and
+`to_incremental` all return; `_fix_prev_evaluation_date` re-links the FIRST new cell of the row (its evaluation date is
+`≤ d`) to the observed right-edge date (`≥ x.ev`), and the `IncrementalCell` constructor refuses
+`evaluation_date <= prev_evaluation_date`. -/
+theorem rightDiag_incremental_historic_raises {t : List Cell} {dates : List Date} (hC : Properties.C04.Complete t)
+    (hinc : Triangle.isIncremental t = true) (hcanon : ∀ c ∈ t, c.md.Canon) (hd : dates.Nodup)
+    (hdates : ∀ e ∈ t, ∀ d ∈ dates, e.ps ≤ d → (emptyCell e d).datesOk = true)
+    {x : Cell} {d : Date} (hx : x ∈ t) (hdd : d ∈ dates) (hle : x.ps ≤ d) (hnot : ¬ x.ev < d) :
+    makeRightDiagonal t dates true = .error .valueError :=
+  makeRightDiagonal_error_inc_hist hC hinc hcanon hd hdates hx hdd hle hnot
+
+/-- **rightDiag_total_incremental_historic**: with `include_historic=True` the operator RETURNS on a complete
+`IncrementalCell` triangle when every requested date that creates a cell on a row (`e.ps ≤ d`) lies strictly after every
+observation of that row (`e.ev < d` for every observed `e` of the row — beyond the row's right edge); other hypotheses
+as in `rightDiag_total_incremental`. Together with `rightDiag_incremental_historic_raises` this decides success of the
+flag on the domain: the two hypotheses `hbeyond` / (`hle`, `hnot`) are complementary. -/
+theorem rightDiag_total_incremental_historic {t : List Cell} {dates : List Date} (hC : Properties.C04.Complete t)
+    (hinc : Triangle.isIncremental t = true) (hcanon : ∀ c ∈ t, c.md.Canon) (hd : dates.Nodup)
+    (hdates : ∀ e ∈ t, ∀ d ∈ dates, e.ps ≤ d → (emptyCell e d).datesOk = true)
+    (hbeyond : ∀ e ∈ t, ∀ d ∈ dates, e.ps ≤ d → e.ev < d) :
+    ∃ out, makeRightDiagonal t dates true = .ok out :=
+  makeRightDiagonal_ok_inc_hist hC hinc hcanon hd hdates hbeyond
+
+/-- closed instance: on C04's complete incremental triangle `exU` (observed up to 2022-12-31) the historic date
+2021-12-31 makes `include_historic=True` raise `ValueError` (witness: the 2020 row of slice A, observed at 2022-12-31) -/
+theorem exU_rightDiag_historic_raises :
+    makeRightDiagonal Properties.C04.exU [⟨2021, 12, 31⟩, ⟨2024, 12, 31⟩] true = .error .valueError :=
+  rightDiag_incremental_historic_raises (x := Properties.C04.exU[1]) (d := ⟨2021, 12, 31⟩)
+    Properties.C04.exU_complete rfl (by decide +kernel) (by decide +kernel) (by decide +kernel)
+    (List.getElem_mem _) (by decide) (by decide +kernel) (by decide +kernel)
+
+/-- closed instance: dates beyond the observed right edge — `include_historic=True` returns on `exU` -/
+theorem exU_rightDiag_historic_ok :
+    ∃ out, makeRightDiagonal Properties.C04.exU [⟨2023, 12, 31⟩, ⟨2024, 12, 31⟩] true = .ok out :=
+  rightDiag_total_incremental_historic Properties.C04.exU_complete rfl (by decide +kernel) (by decide +kernel)
+    (by decide +kernel) (by decide +kernel)
+
+/-! ### the day unit on a complete incremental triangle -/
+
+/-- **rightTri_total_incremental_day**: `make_right_triangle(..., dev_lag_unit="day")` RETURNS on a complete
+`IncrementalCell` triangle with canonical metadata, valid period-end / evaluation dates, integer and distinct requested
+lags (or the slices' own lags), every result `period_end + lag days` inside `date.min .. date.max` (`hrange`), as soon as
+no `CumulativeCell(...)` call raises (`hcells`). All hypotheses are on the observed triangle `t`. (`make_right_diagonal`
+takes dates, not lags: `rightDiag_total_incremental` has no unit and no month-alignment hypothesis, so it needs no day
+variant.) -/
+theorem rightTri_total_incremental_day {t : List Cell} {lags : Option (List Rat)} (hC : Properties.C04.Complete t)
+    (hinc : Triangle.isIncremental t = true) (hcanon : ∀ c ∈ t, c.md.Canon)
+    (hval : ∀ c ∈ t, c.pe.valid = true ∧ c.ev.valid = true)
+    (hint : ∀ l, lags = some l → ∀ lag ∈ l, ∃ k : Int, lag = ((k : Int) : Rat))
+    (hnd : ∀ l, lags = some l → l.Nodup)
+    (hrange : ∀ e ∈ t, ∀ l,
+      ((∃ ls, lags = some ls ∧ l ∈ ls) ∨ (lags = none ∧ ∃ o ∈ t, o.md = e.md ∧ o.devLag .day = l)) →
+      1 ≤ e.pe.ordinal + l.floor ∧ e.pe.ordinal + l.floor ≤ 3652059)
+    (hcells : ∀ e ∈ t, ∀ l,
+      ((∃ ls, lags = some ls ∧ l ∈ ls) ∨ (lags = none ∧ ∃ o ∈ t, o.md = e.md ∧ o.devLag .day = l)) →
+      l > e.devLag .day → (emptyCell e (e.pe.addDays l.floor)).datesOk = true) :
+    ∃ out, makeRightTriangleU t lags (some .day) = .ok out :=
+  makeRightTriangle_ok_inc_day hC hinc hcanon hval hint hnd hrange hcells
+
+/-- the hypotheses of `rightTri_total_incremental_day` hold for `exU` with the slices' own lags (in days) -/
+theorem exU_rightTri_day_ok : ∃ out, makeRightTriangleU Properties.C04.exU none (some .day) = .ok out := by
+  apply rightTri_total_incremental_day Properties.C04.exU_complete rfl (by decide +kernel) (by decide +kernel)
+    (fun l hl => by cases hl) (fun l hl => by cases hl)
+  · intro e he l hl
+    rcases hl with ⟨ls, hls, _⟩ | ⟨_, o, ho, _, rfl⟩
+    · cases hls
+    · simp only [Properties.C04.exU, List.mem_cons, List.not_mem_nil, or_false] at he ho
+      rcases he with rfl | rfl | rfl | rfl | rfl | rfl <;>
+        rcases ho with rfl | rfl | rfl | rfl | rfl | rfl <;> decide +kernel
+  · intro e he l hl hgt
+    rcases hl with ⟨ls, hls, _⟩ | ⟨_, o, ho, _, rfl⟩
+    · cases hls
+    · simp only [Properties.C04.exU, List.mem_cons, List.not_mem_nil, or_false] at he ho
+      rcases he with rfl | rfl | rfl | rfl | rfl | rfl <;>
+        rcases ho with rfl | rfl | rfl | rfl | rfl | rfl <;> revert hgt <;> decide +kernel
 
 end Bermuda.Properties.C15
